@@ -277,7 +277,9 @@ ADDED = {
            "close of an idle-expired pooled connection, the pool's clean-up of a call rejected before any exchange.",
     "C11": " Also: redundant add_node in the model and the histories, constructor-provided node lists, node names of several shapes, "
            "refused add_server / remove_server leave the rotation as it was. Apalache (symbolic) checks the placement lemmas and the as-coded "
-           "fold for ALL natural-number score tables over 4 (thorough 5) nodes, every rotation and node order (spec/PlacementApa.tla).",
+           "fold for ALL natural-number score tables over 4 (thorough 5) nodes, every rotation and node order (spec/PlacementApa.tla). spec/ServerSpec.tla transcribes normalize_server_spec and the grammar of well-formed "
+           "address spellings: TLC checks they agree on every string up to length 4 (thorough 6) over the address alphabet, and the real function "
+           "is run on every one of them (TLC judges the results; the as-coded prediction must match).",
     "C12": " Multi-key answers have the shape of the per-key operation (gets_many through a pooled HashClient).",
     "C13": " Also: connection-level errors that are no ConnectionError, server-answered errors that must not count as failures, per-server "
            "clients that honour ignore_exc, 'a server that answered is not sent the same request again in that call', and the result of "
